@@ -1,13 +1,17 @@
-(* The simulation for STATEMENTS of the fragment (definitions, expression statements, blocks) and statement
-   lists: structural half (L_stmt_all) and semantic half (P_stmt_all), by induction on the fuel of the
-   reference interpreter.  A definition is `local V<var> = nil`, the code of its value, `V<var> = <value>`:
-   SyltSem allocates a cell, evaluates, writes the cell. *)
+(* The simulation for STATEMENTS of the fragment (definitions, assignments, expression statements, blocks,
+   loops, break, continue), statement lists and the bodies of if-branches; P_all ties them with the
+   expression simulation (SimExprProofs.P_eval_succ) by induction on the fuel of the reference interpreter.
+   A definition is `local V<var> = nil`, the code of its value, `V<var> = <value>`: SyltSem allocates a
+   cell, evaluates, writes the cell.  A loop is `while true do ::L:: <cond> if c then else break end <body> end`
+   (LuaLoop.LoopR); every pass starts from the Lua environment of the loop. *)
 From Coq Require Import String Ascii List NArith ZArith QArith Bool Lia.
 From Sylt Require Import Syntax.Resolved.
 From Sylt Require Sem.Values Sem.Runtime Sem.SyltSem.
 From Sylt Require Import Back.IR Back.Emit Back.ScopeProofs.
-From Sylt Require Import Pres.EmitAst Pres.EmitRel Pres.Names Pres.LuaFuel Pres.LuaEv Pres.Preamble Pres.Frag.
-From Sylt Require Import Pres.SimDefs Pres.SimOps Pres.SimVals Pres.SimExpr Pres.LowerShape Pres.SimSteps Pres.SimExprProofs.
+From Sylt Require Import Pres.EmitAst Pres.EmitRel Pres.Names Pres.LuaFuel Pres.LuaEv Pres.Preamble.
+From Sylt Require Import Pres.Frag.
+From Sylt Require Import Pres.SimDefs Pres.SimOps Pres.SimVals.
+From Sylt Require Import Pres.SimExpr Pres.LowerShape Pres.SimSteps Pres.SimExprProofs Pres.LuaLoop Pres.NoExit.
 From Sylt Require Import Lua.LuaAst Lua.LuaMap Lua.LuaNum Lua.LuaProofs Lua.LuaCore.
 Import ListNotations.
 Local Open Scope N_scope.
@@ -19,95 +23,6 @@ Variable pv : N.
 Variable sv : N.
 Variable bound : N.
 Variable u : counts.
-
-Lemma frag_stmts_cons k sc s ss :
-  frag_stmts pv sv bound (S k) sc (s :: ss) =
-  match frag_stmt pv sv bound k sc s with Some sc' => frag_stmts pv sv bound k sc' ss | None => None end.
-Proof. reflexivity. Qed.
-
-Lemma definition_nonfun f var value ctx :
-  is_function value = false ->
-  definition (S f) var value ctx = (r <- expression f value ctx ;; ret ([IDefine var] ++ fst r ++ [IAssign var (snd r)])).
-Proof. destruct value; try discriminate; reflexivity. Qed.
-
-Lemma frag_stmt_def k sc name var kd t value sp sc' :
-  frag_stmt pv sv bound (S k) sc (SDefinition name var kd t value sp) = Some sc' ->
-  is_function value = false /\ fresh_id pv sv bound sc var = true /\ frag_expr pv k (var :: sc) value = true /\ sc' = var :: sc.
-Proof.
-  cbn [frag_stmt]. destruct value; try discriminate; cbn [is_function];
-    (destruct (fresh_id pv sv bound sc var) eqn:Hf; [|discriminate]); cbn [andb];
-    match goal with |- (if ?x then _ else _) = _ -> _ => destruct x eqn:Hx; [|discriminate] end;
-    intros H; inversion H; auto.
-Qed.
-
-Lemma frag_stmt_block k sc ss sp :
-  frag_stmt pv sv bound (S k) sc (SBlock ss sp) =
-  match frag_stmts pv sv bound k sc ss with Some _ => Some sc | None => None end.
-Proof. reflexivity. Qed.
-
-Lemma frag_stmt_sexpr k sc value sp :
-  frag_stmt pv sv bound (S k) sc (SStatementExpression value sp) = if frag_expr pv k sc value then Some sc else None.
-Proof. reflexivity. Qed.
-
-Definition L_stmt (g : nat) : Prop :=
-  forall k s ctx c code c' sc sc' l,
-    statement g s ctx c = Ok (code, c') -> frag_stmt pv sv bound k sc s = Some sc' ->
-    exists b l', cshape u l code b l' c c'.
-
-Definition L_stmts (g : nat) : Prop :=
-  forall k ss ctx c cs c' sc sc' l,
-    mapM (fun s => statement g s ctx) ss c = Ok (cs, c') -> frag_stmts pv sv bound k sc ss = Some sc' ->
-    exists b l', cshape u l (concat cs) b l' c c'.
-
-Lemma L_stmts_of g : L_stmt g -> L_stmts g.
-Proof.
-  intros IH k ss. revert k. induction ss as [|s ss IHss]; intros k ctx c cs c' sc sc' l Hm Hf.
-  - destruct (mapM_nil_ok _ _ _ _ Hm) as [-> ->]. eexists _, _. apply cshape_nil.
-  - destruct k as [|k]; [discriminate|]. rewrite frag_stmts_cons in Hf.
-    destruct (frag_stmt pv sv bound k sc s) as [sc1|] eqn:Hs; [|discriminate Hf].
-    apply mapM_cons_ok in Hm as (y & c1 & ys & Hy & Hys & ->).
-    destruct (IH k s ctx c y c1 sc sc1 l Hy Hs) as (b1 & l1 & Hs1).
-    destruct (IHss k ctx c1 ys c' sc1 sc' l1 Hys Hf) as (b2 & l2 & Hs2).
-    eexists _, _. cbn [concat]. eapply cshape_app; eassumption.
-Qed.
-
-Lemma L_stmt_zero : L_stmt O.
-Proof. intros k s ctx c code c' sc sc' l H. discriminate. Qed.
-
-Lemma L_stmt_succ g : L_stmt g -> L_stmt (S g).
-Proof.
-  intros IH k s ctx c code c' sc sc' l Hlow Hfrag.
-  destruct k as [|k]; [discriminate|].
-  destruct s; try discriminate Hfrag.
-  - (* SDefinition *)
-    destruct (frag_stmt_def _ _ _ _ _ _ _ _ _ Hfrag) as (Hnf & Hfresh & Hfe & ->).
-    cbn [statement] in Hlow. destruct g as [|g']; [discriminate|].
-    rewrite (definition_nonfun g' var value ctx Hnf) in Hlow. mon Hlow.
-    destruct a as [code_v rv]. cbn [fst snd] in *.
-    destruct (L_expr_all pv u g' k value ctx c code_v rv c' (var :: sc) l Hm Hfe) as (b1 & l1 & Hs1 & ? & ?).
-    pose proof Hs1 as (_ & ? & _).
-    eexists _, _.
-    eapply cshape_cons; [apply (cshape_plain u l (IDefine var) c c); [lia | reflexivity | reflexivity | apply used_plain]|].
-    eapply cshape_app; [exact Hs1|].
-    apply (cshape_plain u l1 (IAssign var rv) c' c'); [lia | reflexivity | reflexivity | apply used_plain].
-  - (* SBlock *)
-    rewrite frag_stmt_block in Hfrag. cbn [statement] in Hlow. apply lower_list_ok in Hlow as (cs & Hm & ->).
-    destruct (frag_stmts pv sv bound k sc statements) as [sc1|] eqn:Hs; [|discriminate Hfrag].
-    eapply (L_stmts_of g IH); eassumption.
-  - (* SStatementExpression *)
-    rewrite frag_stmt_sexpr in Hfrag. cbn [statement] in Hlow. mon Hlow.
-    destruct (frag_expr pv k sc value) eqn:Hfe; [|discriminate Hfrag].
-    destruct a as [code_v rv]. cbn [fst] in *.
-    destruct (L_expr_all pv u g k value ctx c code_v rv c' sc l Hm Hfe) as (b1 & l1 & Hs1 & _).
-    eexists _, _. exact Hs1.
-Qed.
-
-Theorem L_stmt_all g : L_stmt g.
-Proof. induction g; [apply L_stmt_zero | apply L_stmt_succ; assumption]. Qed.
-
-Theorem L_stmts_all g : L_stmts g.
-Proof. apply L_stmts_of, L_stmt_all. Qed.
-
 
 (* ------------------------------------------------------------------ statements: semantics *)
 
@@ -267,7 +182,7 @@ Qed.
 
 
 Notation okstep := (okstep pv bound).
-Notation P_eval := (P_eval pv bound u).
+Notation P_eval := (P_eval pv sv bound u).
 
 Lemma okstepS_trans sc sc1 sc2 e2 st2 F F1 F2 c c0 c1 E stL b1 E1 stL1 b2 E2 stL2 e1 st1 :
   okstepS sc sc1 e1 st1 F c c0 E stL b1 E1 stL1 F1 -> okstepS sc1 sc2 e2 st2 F1 c0 c1 E1 stL1 b2 E2 stL2 F2 ->
@@ -287,27 +202,11 @@ Proof.
   intros Hc (_ & Hle & Hfr & _) (_ & Hf & _ & Hn & _). eapply ctx_step; eassumption.
 Qed.
 
-Definition stmt_post (ctx : N) (sc sc' : list N) (e : senv) (F : list N) (c c' : N) (E : env) (stL : state) (b : block)
-           (r : SyltSem.res senv) (st' : sstate) : Prop :=
-  match r with
-  | SyltSem.RVal e' =>
-      exists E' stL' F', okstepS sc sc' e' st' F c c' E stL b E' stL' F' /\ sext sc e e' /\ incl sc sc'
-  | _ => xpost ctx sc e c c' E stL b r st'
-  end.
-
-Definition P_exec (n : nat) : Prop :=
-  forall g k s ctx c code c' e st r st' sc sc' l E stL F,
-    SyltSem.exec n e s st = (r, st') -> statement g s ctx c = Ok (code, c') ->
-    frag_stmt pv sv bound k sc s = Some sc' -> ucovers u code -> ctx_ok l F E c c' -> rel sc e st E stL ->
-    interesting r ->
-    exists b l', cshape u l code b l' c c' /\ stmt_post ctx sc sc' e F c c' E stL b r st'.
-
-Definition P_execs (n : nat) : Prop :=
-  forall g k ss ctx c cs c' e st r st' sc sc' l E stL F,
-    SyltSem.exec_block n e ss st = (r, st') -> mapM (fun s => statement g s ctx) ss c = Ok (cs, c') ->
-    frag_stmts pv sv bound k sc ss = Some sc' -> ucovers u (concat cs) -> ctx_ok l F E c c' -> rel sc e st E stL ->
-    interesting r ->
-    exists b l', cshape u l (concat cs) b l' c c' /\ stmt_post ctx sc sc' e F c c' E stL b r st'.
+Notation stmt_post := (stmt_post pv bound).
+Notation P_exec := (P_exec pv sv bound u).
+Notation P_execs := (P_execs pv sv bound u).
+Notation P_bv := (P_bv pv sv bound u).
+Notation bv_post := (bv_post pv bound).
 
 Lemma P_stmt_zero : P_exec O /\ P_execs O.
 Proof.
@@ -333,9 +232,9 @@ Proof.
     destruct (frag_stmt pv sv bound k sc s) as [sc1|] eqn:Hfs; [|discriminate Hfrag].
     apply mapM_cons_ok in Hm as (y & c1 & ys & Hy & Hys & ->). cbn [concat] in *.
     apply ucovers_app in Hu as [Huy Huys].
-    destruct (L_stmt_all g k s ctx c y c1 sc sc1 l Hy Hfs) as (_ & _ & (_ & Hc1 & _)).
+    destruct (L_stmt_all pv sv bound u g k s ctx c y c1 sc sc1 l Hy Hfs) as (_ & _ & (_ & Hc1 & _)).
     assert (Hrest : forall l0, exists b2 l2, cshape u l0 (concat ys) b2 l2 c1 c')
-      by (intros l0; eapply L_stmts_all; eassumption).
+      by (intros l0; eapply (L_stmts_all pv sv bound u); eassumption).
     destruct (Hrest l) as (_ & _ & (_ & Hc1' & _)).
     assert (Hctxs : ctx_ok l F E c c1) by (eapply ctx_sub; [exact Hctx | lia | lia]).
     cbn [SyltSem.exec_block] in Hev. unfold SyltSem.bind at 1 in Hev.
@@ -371,13 +270,244 @@ Proof. reflexivity. Qed.
 Lemma write_cell_eq c x st : SyltSem.write_cell c x st = (SyltSem.RVal tt, s_write st c x).
 Proof. reflexivity. Qed.
 
-Lemma P_exec_succ n : P_execs n -> P_exec (S n).
+(* ------------------------------------------------------------------ loops *)
+
+(* the block a balanced code segment emits is a function of the table it starts with *)
+Lemma Emits_block_fun l code b l' : Emits u l code b l' -> b = estack u l [] [] code.
 Proof.
-  intros IHss g k s ctx c code c' e st r st' sc sc' l E stL F Hev Hlow Hfrag Hu Hctx Hrel Hint.
+  intros H. rewrite <- (app_nil_r code). rewrite (estack_Emits _ _ _ _ _ H).
+  cbn [estack close_all]. symmetry. apply rev'_rev_append_nil.
+Qed.
+
+(* the loop of the reference interpreter (the local fixpoint of SyltSem.exec) *)
+Definition loop_go (f : nat) (e : senv) (cond : Resolved.expr) (body : list Resolved.stmt) : nat -> SyltSem.M senv :=
+  fix loop (n : nat) : SyltSem.M senv :=
+    match n with
+    | O => SyltSem.stop SyltSem.OFuel
+    | S n' =>
+        SyltSem.bind (SyltSem.eval f e cond) (fun c => SyltSem.bind (SyltSem.truth "loop" c) (fun bc =>
+          if bc then
+            fun st =>
+              match SyltSem.exec_block f e body st with
+              | (SyltSem.RVal _, st') => loop n' st'
+              | (SyltSem.RAbrupt SyltSem.CBreak, st') => (SyltSem.RVal e, st')
+              | (SyltSem.RAbrupt SyltSem.CContinue, st') => loop n' st'
+              | (r, st') => (match r with
+                             | SyltSem.RVal _ => SyltSem.RVal e
+                             | SyltSem.RStop o => SyltSem.RStop o
+                             | SyltSem.RAbrupt c => SyltSem.RAbrupt c
+                             end, st')
+              end
+          else SyltSem.ret e))
+    end.
+
+Lemma exec_loop_eq f e cond body sp : SyltSem.exec (S f) e (SLoop cond body sp) = loop_go f e cond body f.
+Proof. reflexivity. Qed.
+
+Lemma loop_go_S f e cond body m :
+  loop_go f e cond body (S m) =
+  SyltSem.bind (SyltSem.eval f e cond) (fun c => SyltSem.bind (SyltSem.truth "loop" c) (fun bc =>
+    if bc then
+      fun st =>
+        match SyltSem.exec_block f e body st with
+        | (SyltSem.RVal _, st') => loop_go f e cond body m st'
+        | (SyltSem.RAbrupt SyltSem.CBreak, st') => (SyltSem.RVal e, st')
+        | (SyltSem.RAbrupt SyltSem.CContinue, st') => loop_go f e cond body m st'
+        | (r, st') => (match r with
+                       | SyltSem.RVal _ => SyltSem.RVal e
+                       | SyltSem.RStop o => SyltSem.RStop o
+                       | SyltSem.RAbrupt c => SyltSem.RAbrupt c
+                       end, st')
+        end
+    else SyltSem.ret e)).
+Proof. reflexivity. Qed.
+
+Lemma wframe_of_xkeep c c' E stL stL' : xkeep bound c c' E stL stL' -> wframe bound c c' E stL E stL'.
+Proof. intros [Hn Hc]. constructor; auto. Qed.
+
+Lemma xkeep_trans c c' E s1 s2 s3 : xkeep bound c c' E s1 s2 -> xkeep bound c c' E s2 s3 -> xkeep bound c c' E s1 s3.
+Proof.
+  intros [Hn1 Hc1] [Hn2 Hc2]. split; [lia|]. intros t p Hb Hr Hp. rewrite (Hc2 t p Hb Hr Hp). apply (Hc1 t p); assumption.
+Qed.
+
+Lemma xkeep_of_wframe c c' E stL E1 stL1 : wframe bound c c' E stL E1 stL1 -> xkeep bound c c' E stL stL1.
+Proof. intros [Hi Hn Hc Hnc]. split; [exact Hnc | exact Hc]. Qed.
+
+(* after a prefix that ran normally: the relation seen from the environment and scope before it *)
+Lemma rel_back sc sc1 e e1 st st1 F F1 a b E stL b1 E1 stL1 :
+  okstepS sc sc1 e1 st1 F a b E stL b1 E1 stL1 F1 -> rel sc e st E stL -> sext sc e e1 -> incl sc sc1 ->
+  rel sc e st1 E stL1.
+Proof.
+  intros (Hx1 & Hf1 & Hr1 & Hn1 & Hk1) Hrel Hse Hinc.
+  eapply (rel_restrict pv bound sc e st e st1 E E1 stL stL1); [exact Hrel | eapply rel_shrink; eassumption | exact Hk1 |].
+  apply (wr_ncell _ _ _ _ _ _ _ Hf1).
+Qed.
+
+(* the reference semantics of a compound assignment whose operands are plain values *)
+Lemma compound_eq bop cv xo xn (e : senv) st1 :
+  nth_error (SyltSem.cells st1) cv = Some (SV xo) ->
+  SyltSem.bind
+    (SyltSem.bind (SyltSem.read_cell cv) (fun old =>
+     SyltSem.bind (SyltSem.as_value "compound assignment" old) (fun xo =>
+     SyltSem.bind (SyltSem.as_value "compound assignment" (SV xn)) (fun xn =>
+     SyltSem.bind (SyltSem.binop_val bop xo xn) (fun x => SyltSem.ret (SV x))))))
+    (fun r0 => SyltSem.bind (SyltSem.write_cell cv r0) (fun _ => SyltSem.ret e)) st1 =
+  match SyltSem.binop_val bop xo xn st1 with
+  | (SyltSem.RVal x, s) => (SyltSem.RVal e, s_write s cv (SV x))
+  | (SyltSem.RStop o, s) => (SyltSem.RStop o, s)
+  | (SyltSem.RAbrupt a, s) => (SyltSem.RAbrupt a, s)
+  end.
+Proof.
+  intros H. unfold SyltSem.bind, SyltSem.read_cell. rewrite H. cbn [SyltSem.as_value SyltSem.ret].
+  destruct (SyltSem.binop_val bop xo xn st1) as [[x|o|a] s]; reflexivity.
+Qed.
+
+Lemma P_exec_succ n : P_eval n -> P_execs n -> P_exec (S n).
+Proof.
+  intros IHe IHss g k s ctx c code c' e st r st' sc sc' l E stL F Hev Hlow Hfrag Hu Hctx Hrel Hint.
   destruct g as [|g]; [discriminate|]. destruct k as [|k]; [discriminate|].
   destruct s; try discriminate Hfrag.
+  - (* SAssignment *)
+    destruct target; try discriminate Hfrag. rewrite frag_stmt_assign in Hfrag.
+    destruct (assign_op op && memN var sc && frag_expr pv sv bound k sc value)%bool eqn:Hc; [|discriminate Hfrag].
+    inversion Hfrag; subst sc'. clear Hfrag. frag_split Hc.
+    assert (Hin : In var sc).
+    { unfold memN in Hfr0. apply existsb_exists in Hfr0 as (y & Hy & Heq). apply N.eqb_eq in Heq. subst. exact Hy. }
+    cbn [statement] in Hlow. mon Hlow. fresh_all. apply ret_ok in Hm0 as [<- <-]. cbn beta iota in Hlow. mon Hlow.
+    destruct a as [code_v rv]. cbn [fst snd app] in *. rename a0 into opi.
+    assert (Hc' : c' = c0) by (destruct op; try discriminate Hc; apply ret_ok in Hm0 as [_ ?]; congruence). subst c'.
+    apply ucovers_app in Hu as [Huv Hu2].
+    assert (Hcres : 1 <= count_of u c) by (eapply Hu2; [right; left; reflexivity | right; left; reflexivity]).
+    assert (Hcvar : 1 <= count_of u var) by (eapply Hu2; [right; left; reflexivity | left; reflexivity]).
+    destruct (L_expr_all pv sv bound u g k value ctx (c + 1) code_v rv c0 sc l Hm Hfr) as (_ & _ & (_ & Hcc0 & _) & Hrv1 & Hrv2).
+    assert (Htail : forall l1, exists bt l', cshape u l1 [opi; IAssign var c] bt l' c c0).
+    { intros l1. destruct op; try discriminate Hc; apply ret_ok in Hm0 as [<- _]; eexists _, _.
+      - eapply cshape_cons'; [apply (cshape_plain u l1 (ICopy c rv) c c0); [lia | reflexivity | reflexivity | apply used_plain]|].
+        apply (cshape_plain u l1 (IAssign var c) c c0); [lia | reflexivity | reflexivity | apply used_plain].
+      - eapply cshape_cons'; [eapply (cshape_iis u l1 (IAdd c var rv) c _ c c0); [lia | reflexivity | reflexivity]|].
+        apply (cshape_plain u _ (IAssign var c) c c0); [lia | reflexivity | reflexivity | apply used_plain].
+      - eapply cshape_cons'; [eapply (cshape_iis u l1 (ISub c var rv) c _ c c0); [lia | reflexivity | reflexivity]|].
+        apply (cshape_plain u _ (IAssign var c) c c0); [lia | reflexivity | reflexivity | apply used_plain].
+      - eapply cshape_cons'; [eapply (cshape_iis u l1 (IMul c var rv) c _ c c0); [lia | reflexivity | reflexivity]|].
+        apply (cshape_plain u _ (IAssign var c) c c0); [lia | reflexivity | reflexivity | apply used_plain]. }
+    destruct (r_vars _ _ _ _ _ _ _ Hrel var Hin) as (cv & x0 & p0 & Hlk & Hnth0 & Hp0 & Hv0).
+    destruct (r_scb _ _ _ _ _ _ _ Hrel var Hin) as [Hvarb Hvarp].
+    assert (Hctxv : ctx_ok l F E (c + 1) c0) by (eapply ctx_sub; [exact Hctx | lia | lia]).
+    assert (Hbc : bound <= c) by (destruct Hctx; assumption).
+    cbn [SyltSem.exec] in Hev. rewrite Hlk in Hev. unfold SyltSem.bind at 1 in Hev.
+    destruct (SyltSem.eval n e value st) as [[nv|o|cc] st1] eqn:He1.
+    2: { inversion Hev; subst.
+         destruct (IHe g k value ctx (c + 1) code_v rv c0 e st _ st' sc l E stL F He1 Hm Hfr Huv Hctxv Hrel Hint) as (b1 & l1 & Hs1 & _ & _ & Hp1).
+         destruct (Htail l1) as (bt & l' & Hst).
+         eexists _, _. split; [eapply cshape_app'; [eapply cshape_widen; [exact Hs1 | lia | lia] | exact Hst]|].
+         cbn [stmt_post eval_post] in *. eapply exit_app; [eapply (xpost_widen pv bound ctx sc e (c + 1) c0 c c0); [exact Hp1 | lia | lia] | apply N.le_refl]. }
+    2: { inversion Hev; subst.
+         destruct (IHe g k value ctx (c + 1) code_v rv c0 e st _ st' sc l E stL F He1 Hm Hfr Huv Hctxv Hrel Hint) as (b1 & l1 & Hs1 & _ & _ & Hp1).
+         destruct (Htail l1) as (bt & l' & Hst).
+         eexists _, _. split; [eapply cshape_app'; [eapply cshape_widen; [exact Hs1 | lia | lia] | exact Hst]|].
+         cbn [stmt_post eval_post] in *. eapply exit_app; [eapply (xpost_widen pv bound ctx sc e (c + 1) c0 c c0); [exact Hp1 | lia | lia] | apply N.le_refl]. }
+    destruct (IHe g k value ctx (c + 1) code_v rv c0 e st _ st1 sc l E stL F He1 Hm Hfr Huv Hctxv Hrel I)
+      as (b1 & l1 & Hs1 & _ & _ & E1 & stL1 & F1 & Hok1 & Hd1).
+    pose proof Hok1 as (Hx1 & Hf1 & Hrel1 & Hn1 & Hk1).
+    pose proof Hs1 as (_ & _ & Hfr1 & _).
+    assert (Hl1c : alut_get l1 c = None) by (rewrite Hfr1 by lia; apply (cx_lut _ _ _ _ _ _ Hctx); left; lia).
+    assert (Hl1u : forall w, w < bound -> alut_get l1 w = None) by (intros w Hw; rewrite Hfr1 by lia; apply (cx_lut _ _ _ _ _ _ Hctx); right; exact Hw).
+    assert (HE1c : sget (fmt_var c) E1 = None).
+    { destruct (sget (fmt_var c) E1) as [q|] eqn:Hq; [|reflexivity].
+      destruct (wr_new _ _ _ _ _ _ _ Hf1 _ _ Hq) as [H'|[(t' & Heq & Hr)|(t' & Heq & Hr)]].
+      - rewrite (cx_E _ _ _ _ _ _ Hctx c) in H' by lia. discriminate.
+      - apply fmt_var_inj in Heq. subst. lia.
+      - apply fmt_var_inj in Heq. subst. lia. }
+    pose proof (r_wf _ _ _ _ _ _ _ Hrel1) as Hwf1. pose proof (r_linv _ _ _ _ _ _ _ Hrel1) as Hli1.
+    destruct (r_vars _ _ _ _ _ _ _ Hrel1 var Hin) as (cv1 & x1 & p1 & Hlk1 & Hnth1 & Hp1 & Hv1).
+    rewrite Hlk in Hlk1. inversion Hlk1; subst cv1. clear Hlk1.
+    assert (Hcr : c <= c < c0) by lia.
+    (* the statements after the value, given a denotation of `res` *)
+    assert (Hfinish : forall E2 stL2 F2 ss l2 newv,
+               ExecS E1 ss stL1 (ROk (E2, SigNormal) stL2) -> lframe c c0 E1 stL1 E2 stL2 -> s_out stL2 = s_out stL1 ->
+               (forall w, w < bound -> alut_get l2 w = None) ->
+               denotes F2 E2 stL2 (aexpand l2 c) newv ->
+               exists stL3, okstepS sc sc e (s_write st1 cv newv) F c c0 E stL
+                              ((b1 ++ ss) ++ fst (agen_one u l2 (IAssign var c))) E2 stL3 F1).
+    { intros E2 stL2 F2 ss l2 newv Hxs Hlf Hout Hl2v Hden.
+      assert (Hrel2 : rel sc e st1 E2 stL2) by (eapply rel_lframe; eassumption).
+      assert (Hlok2 : lut_ok bound l2 c c) by (intros t [Ht|Ht]; [lia | apply Hl2v; exact Ht]).
+      destruct (step_assign_user sc e st1 F2 c c E2 stL2 l2 var c newv cv Hrel2 Hlok2 Hin Hcvar Hlk Hden)
+        as (stL3 & Hx3 & Hf3 & Hrel3 & _ & Hk3).
+      exists stL3. split; [eapply ExecS_app; [eapply ExecS_app; eassumption | exact Hx3]|].
+      split.
+      { eapply wframe_trans; [eapply wframe_widen; [exact Hf1 | lia | lia]|].
+        eapply wframe_trans; [apply lframe_w; exact Hlf | eapply wframe_widen; [exact Hf3 | lia | lia]]. }
+      split; [exact Hrel3|]. split; [eapply F_new_widen; [exact Hn1 | lia | lia]|].
+      eapply keep_trans; [exact Hk1|]. eapply keep_trans; [eapply keep_lframe; [exact Hrel1 | exact Hlf | exact Hbc] | exact Hk3]. }
+    assert (Harith : forall bop opi',
+               value_op bop = true -> binop_ir bop c var rv = Some opi' -> ucovers u [opi'; IAssign var c] ->
+               SyltSem.bind
+                 (SyltSem.bind (SyltSem.read_cell cv) (fun old =>
+                  SyltSem.bind (SyltSem.as_value "compound assignment" old) (fun xo =>
+                  SyltSem.bind (SyltSem.as_value "compound assignment" nv) (fun xn =>
+                  SyltSem.bind (SyltSem.binop_val bop xo xn) (fun x => SyltSem.ret (SV x))))))
+                 (fun r0 => SyltSem.bind (SyltSem.write_cell cv r0) (fun _ => SyltSem.ret e)) st1 = (r, st') ->
+               exists b l', cshape u l (code_v ++ [opi'; IAssign var c]) b l' c c0 /\
+                            stmt_post ctx sc sc e F c c0 E stL b r st').
+    { intros bop opi' Hvop Hbi Hu2' Hev'.
+      destruct (agen_binop u l1 bop c var rv opi' Hvop Hbi) as (Hgen & Hsimple & Huses).
+      assert (Hcrv : 1 <= count_of u rv) by (eapply Hu2'; [left; reflexivity | rewrite Huses; right; left; reflexivity]).
+      specialize (Hd1 Hcrv).
+      destruct (denotes_now _ _ _ _ _ Hd1 Hwf1 Hli1) as (lvn & Hvn & _).
+      assert (Hxn : exists xn, nv = SV xn) by (inversion Hvn; eauto). destruct Hxn as [xn ->].
+      assert (Hxo : exists xo, x1 = SV xo) by (inversion Hv1; eauto). destruct Hxo as [xo ->].
+      rewrite (compound_eq bop cv xo xn e st1 Hnth1) in Hev'.
+      destruct (SyltSem.binop_val bop xo xn st1) as [[x|o|cc] st3] eqn:Hbv.
+      2: { inversion Hev'; subst. apply binop_val_res in Hbv. apply stuckish_not_good in Hbv. contradiction. }
+      2: { apply binop_val_res in Hbv. destruct Hbv. }
+      pose proof (binop_val_state _ _ _ _ _ _ Hbv). subst st3. inversion Hev'; subst r st'. clear Hev'.
+      assert (Hdo : denotes (var :: F1) E1 stL1 (aexpand l1 var) (SV xo)).
+      { unfold aexpand. rewrite (Hl1u var Hvarb). eapply denotes_local; [left; reflexivity | exact Hp1 | exact Hv1]. }
+      assert (Hdn : denotes (var :: F1) E1 stL1 (aexpand l1 rv) (SV xn))
+        by (eapply denotes_mono; [exact Hd1 | apply fut_refl | apply incl_tl, incl_refl]).
+      pose proof (denotes_binop (var :: F1) E1 stL1 bop _ _ xo xn x st1 st1 Hvop Hdo Hdn Hbv) as Hdr.
+      destruct (op_iis u (var :: F1) E1 stL1 l1 c _ (SV x) c c0 Hwf1 Hli1 HE1c Hcr Hl1c Hdr)
+        as (E2 & stL2 & F2 & Hx2 & Hfr2 & Ho2 & _ & Hden2). specialize (Hden2 Hcres).
+      destruct (Hfinish E2 stL2 F2 _ (snd (aiis u l1 c (bexpr bop (aexpand l1 var) (aexpand l1 rv)))) (SV x) Hx2 Hfr2 Ho2) as (stL3 & Hok3).
+      { intros w Hw. rewrite (aiis_frame u l1 c _ c (c + 1)) by lia. apply Hl1u. exact Hw. }
+      { exact Hden2. }
+      eexists _, _. split.
+      { eapply cshape_app'; [eapply cshape_widen; [exact Hs1 | lia | lia]|].
+        eapply cshape_cons'; [apply (cshape_iis u l1 opi' c _ c c0 Hcr Hsimple Hgen)|].
+        apply (cshape_plain u _ (IAssign var c) c c0); [lia | reflexivity | reflexivity | apply used_plain]. }
+      cbn [stmt_post]. exists E2, stL3, F1.
+      split; [|split; [apply sext_refl | apply incl_refl]].
+      rewrite app_assoc. exact Hok3. }
+    destruct op; try discriminate Hc.
+    + (* = *)
+      apply ret_ok in Hm0 as [<- _].
+      assert (Hcrv : 1 <= count_of u rv) by (eapply Hu2; [left; reflexivity | left; reflexivity]).
+      specialize (Hd1 Hcrv).
+      destruct (denotes_now _ _ _ _ _ Hd1 Hwf1 Hli1) as (lv & Hvr & Hpe).
+      destruct (op_local c c0 E1 stL1 c (aexpand l1 rv) lv Hwf1 Hli1 HE1c Hcr Hpe) as (stm & Hxm & Hexm & Hfrm).
+      assert (Hg : fst (agen_one u l1 (ICopy c rv)) = [SLocal [fmt_var c] [aexpand l1 rv]]).
+      { cbn [agen_one]. replace (0 <? count_of u c) with true by (symmetry; apply N.ltb_lt; lia).
+        cbn [fst]. rewrite (aname_none l1 c Hl1c). reflexivity. }
+      destruct (Hfinish _ _ (c :: F1) [SLocal [fmt_var c] [aexpand l1 rv]] l1 nv (ExecS_one _ _ _ _ Hexm) Hfrm) as (stL3 & Hok3).
+      { cbn [alloc_cell snd s_out]. apply Hxm. }
+      { exact Hl1u. }
+      { unfold aexpand. rewrite Hl1c.
+        eapply denotes_local; [left; reflexivity | apply sget_sset_same | rewrite get_cell_alloc_new; exact Hvr]. }
+      assert (Hres : r = SyltSem.RVal e /\ st' = s_write st1 cv nv) by (cbn in Hev; inversion Hev; split; reflexivity).
+      destruct Hres as [-> ->]. clear Hev.
+      eexists _, _. split.
+      { eapply cshape_app'; [eapply cshape_widen; [exact Hs1 | lia | lia]|].
+        eapply cshape_cons'; [apply (cshape_plain u l1 (ICopy c rv) c c0); [lia | reflexivity | reflexivity | apply used_plain]|].
+        apply (cshape_plain u l1 (IAssign var c) c c0); [lia | reflexivity | reflexivity | apply used_plain]. }
+      cbn [stmt_post]. exists (sset (fmt_var c) (s_ncell stm) E1), stL3, F1.
+      split; [|split; [apply sext_refl | apply incl_refl]].
+      rewrite Hg, app_assoc. exact Hok3.
+    + apply ret_ok in Hm0 as [<- _]. exact (Harith Add _ eq_refl eq_refl Hu2 Hev).
+    + apply ret_ok in Hm0 as [<- _]. exact (Harith Sub _ eq_refl eq_refl Hu2 Hev).
+    + apply ret_ok in Hm0 as [<- _]. exact (Harith Mul _ eq_refl eq_refl Hu2 Hev).
   - (* SDefinition *)
-    destruct (frag_stmt_def _ _ _ _ _ _ _ _ _ Hfrag) as (Hnf & Hfresh & Hfe & ->).
+    destruct (frag_stmt_def pv sv bound _ _ _ _ _ _ _ _ _ Hfrag) as (Hnf & Hfresh & Hfe & ->).
     destruct (fresh_id_inv _ _ Hfresh) as (Hnin & Hnpv & Hnsv & Hvb).
     cbn [statement] in Hlow. destruct g as [|g']; [discriminate|].
     rewrite (definition_nonfun g' var value ctx Hnf) in Hlow. mon Hlow.
@@ -385,7 +515,7 @@ Proof.
     apply ucovers_cons in Hu as [Hu1 Hu]. apply ucovers_app in Hu as [Huv Hua].
     assert (Hcvar : 1 <= count_of u var) by (apply Hu1; left; reflexivity).
     assert (Hcrv : 1 <= count_of u rv) by (eapply Hua; [left; reflexivity | right; left; reflexivity]).
-    destruct (L_expr_all pv u g' k value ctx c code_v rv c' (var :: sc) l Hm Hfe) as (_ & _ & (_ & Hcc & _) & Hrv1 & Hrv2).
+    destruct (L_expr_all pv sv bound u g' k value ctx c code_v rv c' (var :: sc) l Hm Hfe) as (_ & _ & (_ & Hcc & _) & Hrv1 & Hrv2).
     set (e' := (var, length (SyltSem.cells st)) :: e).
     assert (Hlcc : lut_ok bound l c c) by (eapply lut_ok_sub; [apply (cx_lut _ _ _ _ _ _ Hctx) | lia | lia]).
     destruct (step_define_user sc e st F c E stL l var Hrel Hlcc Hfresh Hcvar) as (E1 & stL1 & Hokd).
@@ -400,7 +530,7 @@ Proof.
     fold e' in Hev. unfold SyltSem.bind at 1 in Hev.
     destruct (SyltSem.eval n e' value (s_alloc st (SV Values.VLuaNil))) as [[v_|o|cc] st1] eqn:He1.
     2: { inversion Hev; subst.
-         destruct (P_eval_all pv bound u n g' k value ctx c code_v rv c' e' _ _ st' (var :: sc) l E1 stL1 F He1 Hm Hfe Huv Hctx1 Hrel1 Hint)
+         destruct (IHe g' k value ctx c code_v rv c' e' _ _ st' (var :: sc) l E1 stL1 F He1 Hm Hfe Huv Hctx1 Hrel1 Hint)
            as (b1 & l1 & Hs1 & _ & _ & Hp1).
          eexists _, _. split.
          - eapply cshape_cons; [exact Hsd|]. eapply cshape_app; [exact Hs1|].
@@ -409,7 +539,7 @@ Proof.
            eapply (exit_pre pv bound ctx sc (var :: sc) e e' st (s_alloc st (SV Values.VLuaNil)));
              [exact Hokd | exact Hrel | exact Hse | apply incl_tl, incl_refl | eapply exit_app; [exact Hp1 | apply N.le_refl] | lia | lia]. }
     2: { inversion Hev; subst.
-         destruct (P_eval_all pv bound u n g' k value ctx c code_v rv c' e' _ _ st' (var :: sc) l E1 stL1 F He1 Hm Hfe Huv Hctx1 Hrel1 Hint)
+         destruct (IHe g' k value ctx c code_v rv c' e' _ _ st' (var :: sc) l E1 stL1 F He1 Hm Hfe Huv Hctx1 Hrel1 Hint)
            as (b1 & l1 & Hs1 & _ & _ & Hp1).
          eexists _, _. split.
          - eapply cshape_cons; [exact Hsd|]. eapply cshape_app; [exact Hs1|].
@@ -417,7 +547,7 @@ Proof.
          - cbn [stmt_post eval_post] in *.
            eapply (exit_pre pv bound ctx sc (var :: sc) e e' st (s_alloc st (SV Values.VLuaNil)));
              [exact Hokd | exact Hrel | exact Hse | apply incl_tl, incl_refl | eapply exit_app; [exact Hp1 | apply N.le_refl] | lia | lia]. }
-    destruct (P_eval_all pv bound u n g' k value ctx c code_v rv c' e' _ _ st1 (var :: sc) l E1 stL1 F He1 Hm Hfe Huv Hctx1 Hrel1 I)
+    destruct (IHe g' k value ctx c code_v rv c' e' _ _ st1 (var :: sc) l E1 stL1 F He1 Hm Hfe Huv Hctx1 Hrel1 I)
       as (b1 & l1 & Hs1 & _ & _ & E2 & stL2 & F2 & Hok2 & Hd2). specialize (Hd2 Hcrv).
     pose proof Hok2 as (_ & _ & Hrel2 & _).
     assert (Hctx2 : ctx_ok l1 F2 E2 c' c') by (eapply (ctx_after pv bound u); eassumption).
@@ -431,6 +561,189 @@ Proof.
     + cbn [stmt_post]. exists E2, stL3, F2. split; [|split; [exact Hse | apply incl_tl, incl_refl]].
       eapply okstepS_trans; [exact Hokd | | apply incl_tl, incl_refl | lia | lia].
       eapply okstepS_trans; [exact Hok2 | exact Hok3 | apply incl_refl | lia | lia].
+  - (* SLoop *)
+    rewrite frag_stmt_loop in Hfrag.
+    destruct (noexit_expr k condition && frag_expr pv sv bound k sc condition && is_some (frag_stmts pv sv bound k sc body))%bool eqn:Hc; [|discriminate Hfrag].
+    inversion Hfrag; subst sc'. clear Hfrag.
+    frag_split Hc. destruct (frag_stmts pv sv bound k sc body) as [scb|] eqn:Hfb; [|discriminate Hfr].
+    cbn [statement] in Hlow. mon Hlow. fresh_all.
+    destruct a as [code_c vc]. cbn [fst snd] in *.
+    apply lower_list_ok in Hm1 as (cs & Hmb & ->).
+    assert (Hcode : [ILoop; ILabel c0] ++ code_c ++ [IIf vc; IElse; IBreak; IEnd] ++ concat cs ++ [IEnd]
+                    = ILoop :: ILabel c0 :: (code_c ++ (IIf vc :: [] ++ IElse :: [IBreak] ++ [IEnd]) ++ concat cs) ++ [IEnd])
+      by (cbn [app]; rewrite <- !app_assoc; reflexivity).
+    rewrite Hcode in *. clear Hcode.
+    apply ucovers_cons in Hu as [_ Hu]. apply ucovers_cons in Hu as [_ Hu]. apply ucovers_app in Hu as [Hu _].
+    apply ucovers_app in Hu as [Huc Hu]. apply ucovers_app in Hu as [Huif Hub].
+    assert (Hcvc : 1 <= count_of u vc) by (eapply Huif; [left; reflexivity | left; reflexivity]).
+    (* structure *)
+    destruct (L_expr_all pv sv bound u g k condition ctx c code_c vc c0 sc l Hm Hfr0) as (bc0 & lc0 & Hsc0 & _ & _).
+    pose proof Hsc0 as (_ & Hcc0 & _).
+    assert (HLb : forall l0, exists bb l2, cshape u l0 (concat cs) bb l2 (c0 + 1) c')
+      by (intros l0; eapply (L_stmts_all pv sv bound u g); eassumption).
+    destruct (HLb lc0) as (bb0 & l20 & Hsb0). pose proof Hsb0 as (_ & Hc0c' & _).
+    assert (Hmk : forall bc l1 bb l2, cshape u l code_c bc l1 c c0 -> cshape u l1 (concat cs) bb l2 (c0 + 1) c' ->
+              cshape u l (code_c ++ (IIf vc :: [] ++ IElse :: [IBreak] ++ [IEnd]) ++ concat cs)
+                     (bc ++ [SIf (aexpand l1 vc) [] [SBreak]] ++ bb) l2 c c').
+    { intros bc l1 bb l2 Hs1 Hs2.
+      eapply cshape_app'; [eapply cshape_widen; [exact Hs1 | lia | lia]|].
+      eapply cshape_app'; [|eapply cshape_widen; [exact Hs2 | lia | lia]].
+      eapply cshape_ifelse; [apply cshape_nil'; lia|].
+      apply (cshape_plain u l1 IBreak c c'); [lia | reflexivity | reflexivity | reflexivity]. }
+    pose proof (Hmk _ _ _ _ Hsc0 Hsb0) as HsBB.
+    remember (bc0 ++ [SIf (aexpand lc0 vc) [] [SBreak]] ++ bb0) as BB eqn:HBBdef. clear HBBdef.
+    assert (Hsame : forall bc l1 bb l2, cshape u l code_c bc l1 c c0 -> cshape u l1 (concat cs) bb l2 (c0 + 1) c' ->
+              bc ++ [SIf (aexpand l1 vc) [] [SBreak]] ++ bb = BB).
+    { intros bc l1 bb l2 Hs1 Hs2. destruct (Hmk _ _ _ _ Hs1 Hs2) as (He1 & _). destruct HsBB as (He2 & _).
+      rewrite (Emits_block_fun _ _ _ _ He1), (Emits_block_fun _ _ _ _ He2). reflexivity. }
+    assert (HnlBB : nolabel BB) by apply HsBB.
+    assert (Hctxc : ctx_ok l F E c c0) by (eapply ctx_sub; [exact Hctx | lia | lia]).
+    eexists _, _. split; [apply cshape_loop; exact HsBB|].
+    rewrite exec_loop_eq in Hev.
+    (* the runs of the loop *)
+    assert (Hiter : forall m s0 sL0 r0 s0',
+              loop_go n e condition body m s0 = (r0, s0') -> interesting r0 -> rel sc e s0 E sL0 ->
+              match r0 with
+              | SyltSem.RVal e' =>
+                  e' = e /\ exists sL', LoopR E (fmt_label c0) BB sL0 (ROk SigNormal sL') /\ rel sc e s0' E sL' /\
+                                         xkeep bound c c' E sL0 sL'
+              | SyltSem.RStop o => exists ev sL', LoopR E (fmt_label c0) BB sL0 (RErr ev sL') /\ SyltSem.trace s0' = s_out sL'
+              | SyltSem.RAbrupt _ => False
+              end).
+    { clear Hev Hrel Hint r st'.
+      induction m as [|m IHm]; intros s0 sL0 r0 s0' Hgo Hi0 Hrel0.
+      { cbn in Hgo. inversion Hgo; subst. destruct Hi0. }
+      (* one more pass, then the rest of the loop *)
+      assert (Hcont : forall s2 E2 sg sL2, sg = SigNormal \/ sg = SigGoto (fmt_label c0) ->
+                ExecS E BB sL0 (ROk (E2, sg) sL2) -> rel sc e s2 E sL2 -> xkeep bound c c' E sL0 sL2 ->
+                loop_go n e condition body m s2 = (r0, s0') ->
+                match r0 with
+                | SyltSem.RVal e' =>
+                    e' = e /\ exists sL', LoopR E (fmt_label c0) BB sL0 (ROk SigNormal sL') /\ rel sc e s0' E sL' /\
+                                           xkeep bound c c' E sL0 sL'
+                | SyltSem.RStop o => exists ev sL', LoopR E (fmt_label c0) BB sL0 (RErr ev sL') /\ SyltSem.trace s0' = s_out sL'
+                | SyltSem.RAbrupt _ => False
+                end).
+      { intros s2 E2 sg sL2 Hsg Hx2 Hrel2 Hk2 Hgo2.
+        assert (Hstep : forall rr, LoopR E (fmt_label c0) BB sL2 rr -> LoopR E (fmt_label c0) BB sL0 rr).
+        { intros rr Hrr. destruct Hsg as [-> | ->]; [eapply LR_normal; eassumption | eapply LR_continue; eassumption]. }
+        pose proof (IHm s2 sL2 r0 s0' Hgo2 Hi0 Hrel2) as Hr.
+        destruct r0 as [e'|o|a]; [| | exact Hr].
+        - destruct Hr as (-> & sL' & HL & Hr' & Hk'). split; [reflexivity|]. exists sL'.
+          split; [apply Hstep; exact HL | split; [exact Hr' | eapply xkeep_trans; eassumption]].
+        - destruct Hr as (ev & sL' & HL & Htr). exists ev, sL'. split; [apply Hstep; exact HL | exact Htr]. }
+      (* a pass that ends the loop, goes on with continue, or fails *)
+      assert (Hterm : forall (rr : SyltSem.res senv) s2, exit_post pv bound c0 sc e c c' E sL0 BB rr s2 ->
+                match rr with
+                | SyltSem.RStop o => exists ev sL', LoopR E (fmt_label c0) BB sL0 (RErr ev sL') /\ SyltSem.trace s2 = s_out sL'
+                | SyltSem.RAbrupt SyltSem.CBreak =>
+                    exists sL', LoopR E (fmt_label c0) BB sL0 (ROk SigNormal sL') /\ rel sc e s2 E sL' /\ xkeep bound c c' E sL0 sL'
+                | SyltSem.RAbrupt SyltSem.CContinue =>
+                    exists E' sL', ExecS E BB sL0 (ROk (E', SigGoto (fmt_label c0)) sL') /\ rel sc e s2 E sL' /\ xkeep bound c c' E sL0 sL'
+                | _ => True
+                end).
+      { intros rr s2 (rl & Hx & Hok). destruct rr as [x|o|[| |v]]; cbn [exit_ok] in Hok; try exact I.
+        - destruct Hok as (ev & sL' & -> & Htr). exists ev, sL'. split; [apply LR_err; exact Hx | exact Htr].
+        - destruct Hok as (E' & sL' & -> & Hr & Hk). exists sL'. split; [eapply LR_break; exact Hx | split; assumption].
+        - destruct Hok as (E' & sL' & -> & Hr & Hk). exists E', sL'. split; [exact Hx | split; assumption]. }
+      rewrite loop_go_S in Hgo. unfold SyltSem.bind at 1 in Hgo.
+      destruct (SyltSem.eval n e condition s0) as [[cv|o|a] s1] eqn:Hec.
+      3: { exfalso. exact (noexit_noab n k e condition s0 _ s1 Hc Hec). }
+      2: { inversion Hgo; subst r0 s0'.
+           destruct (IHe g k condition ctx c code_c vc c0 e s0 _ s1 sc l E sL0 F Hec Hm Hfr0 Huc Hctxc Hrel0 Hi0)
+             as (bc & l1 & Hs1 & _ & _ & rl & Hx & Hok).
+           destruct (HLb l1) as (bb & l2' & Hs2). pose proof (Hsame _ _ _ _ Hs1 Hs2) as HeqBB.
+           cbn [exit_ok] in Hok. destruct Hok as (ev & sL' & -> & Htr).
+           exists ev, sL'. split; [|exact Htr]. apply LR_err. rewrite <- HeqBB. apply ExecS_app_stop; [exact Hx | intros []]. }
+      destruct (IHe g k condition ctx c code_c vc c0 e s0 _ s1 sc l E sL0 F Hec Hm Hfr0 Huc Hctxc Hrel0 I)
+        as (bc & l1 & Hs1 & _ & _ & E1 & sL1 & F1 & Hok1 & Hd1). specialize (Hd1 Hcvc).
+      pose proof Hok1 as (Hx1 & Hf1 & Hrel1 & Hn1 & Hk1).
+      assert (Hctx1 : ctx_ok l1 F1 E1 c0 c') by (eapply (ctx_after pv bound u); eassumption).
+      pose proof (r_wf _ _ _ _ _ _ _ Hrel1) as Hwf1. pose proof (r_linv _ _ _ _ _ _ _ Hrel1) as Hli1.
+      destruct (denotes_now _ _ _ _ _ Hd1 Hwf1 Hli1) as (lvc & Hvvc & stc & Hevc & _ & Hxc).
+      unfold SyltSem.bind at 1 in Hgo.
+      assert (Hbc : exists bcv, cv = SV (Values.VBool bcv)).
+      { inversion Hvvc; subst; cbn in Hgo; inversion Hgo; subst; try destruct Hi0. eauto. }
+      destruct Hbc as [bcv ->]. cbn [SyltSem.truth SyltSem.ret] in Hgo. inversion Hvvc; subst lvc.
+      assert (Hrelc : rel sc e s1 E1 stc) by (eapply rel_cells_ext; eassumption).
+      destruct bcv.
+      - (* the condition holds: the body *)
+        assert (Hokif : okstep sc e s1 F1 c0 c0 E1 sL1 [SIf (aexpand l1 vc) [] [SBreak]] E1 stc F1).
+        { eapply (okstep_if pv bound sc e s1 s1 F1 c0 c0 E1 sL1 _ [] [SBreak] (VBool true) stc E1 stc);
+            [exact Hrel1 | exact Hevc | exact Hxc | cbn [truthy]; constructor | cbn [truthy]; apply XS_nil | exact Hrelc |].
+          split; [apply Pos.le_refl | intros; reflexivity]. }
+        assert (Hokp : okstep sc e s1 F c c0 E sL0 (bc ++ [SIf (aexpand l1 vc) [] [SBreak]]) E1 stc F1)
+          by (eapply okstep_trans; [exact Hok1 | exact Hokif | lia | lia]).
+        assert (Hctxb : ctx_ok l1 F1 E1 (c0 + 1) c') by (eapply ctx_sub; [exact Hctx1 | lia | lia]).
+        destruct (SyltSem.exec_block n e body s1) as [rb s2] eqn:Heb.
+        assert (Hintb : interesting rb).
+        { destruct rb as [e2|o|[| |v]]; cbn [interesting]; auto.
+          - inversion Hgo; subst. exact Hi0.
+          - inversion Hgo; subst. exact Hi0. }
+        destruct (IHss g k body c0 (c0 + 1) cs c' e s1 rb s2 sc scb l1 E1 stc F1 Heb Hmb Hfb Hub Hctxb Hrelc Hintb)
+          as (bb & l2' & Hs2 & Hpost).
+        pose proof (Hsame _ _ _ _ Hs1 Hs2) as HeqBB. rewrite app_assoc in HeqBB.
+        assert (Hxp : match rb with SyltSem.RVal _ => True | _ => exit_post pv bound c0 sc e c c' E sL0 BB rb s2 end).
+        { destruct rb as [e2|o|a]; [exact I | |]; rewrite <- HeqBB; cbn [stmt_post] in Hpost.
+          - eapply (exit_pre_gen pv bound c0 sc sc e e s0 s1 F F1 c c0 (c0 + 1) c' c c' E sL0 _ E1 stc bb);
+              [exact Hokp | exact Hrel0 | apply sext_refl | apply incl_refl | exact Hpost | lia | lia | lia | lia].
+          - eapply (exit_pre_gen pv bound c0 sc sc e e s0 s1 F F1 c c0 (c0 + 1) c' c c' E sL0 _ E1 stc bb);
+              [exact Hokp | exact Hrel0 | apply sext_refl | apply incl_refl | exact Hpost | lia | lia | lia | lia]. }
+        destruct rb as [e2|o|[| |v]].
+        + (* the body ran to its end *)
+          cbn [stmt_post] in Hpost. destruct Hpost as (E2 & sL2 & F2 & Hok2 & Hse2 & Hinc2).
+          assert (Hall : okstepS sc scb e2 s2 F c c' E sL0 ((bc ++ [SIf (aexpand l1 vc) [] [SBreak]]) ++ bb) E2 sL2 F2).
+          { eapply (okstepS_trans sc sc scb e2 s2 F F1 F2 c c0 c'); [exact Hokp | | apply incl_refl | lia | lia].
+            destruct Hok2 as (Ha & Hb & Hc2 & Hd & He). split; [exact Ha|]. split; [eapply wframe_widen; [exact Hb | lia | lia]|].
+            split; [exact Hc2 | split; [eapply F_new_widen; [exact Hd | lia | lia] | exact He]]. }
+          rewrite HeqBB in Hall.
+          eapply (Hcont s2 E2 SigNormal sL2); [left; reflexivity | apply Hall | | | exact Hgo].
+          * eapply rel_back; [exact Hall | exact Hrel0 | exact Hse2 | exact Hinc2].
+          * eapply xkeep_of_wframe. apply Hall.
+        + (* the body failed *)
+          inversion Hgo; subst r0 s0'. exact (Hterm _ _ Hxp).
+        + (* break *)
+          inversion Hgo; subst r0 s0'. split; [reflexivity | exact (Hterm _ _ Hxp)].
+        + (* continue *)
+          destruct (Hterm _ _ Hxp) as (E' & sL' & Hx' & Hr' & Hk').
+          eapply (Hcont s2 E' (SigGoto (fmt_label c0)) sL'); [right; reflexivity | exact Hx' | exact Hr' | exact Hk' | exact Hgo].
+        + inversion Hgo; subst r0 s0'. destruct Hi0.
+      - (* the condition fails: break *)
+        inversion Hgo; subst r0 s0'. split; [reflexivity|].
+        destruct (HLb l1) as (bb & l2' & Hs2). pose proof (Hsame _ _ _ _ Hs1 Hs2) as HeqBB. rewrite app_assoc in HeqBB.
+        assert (Hxif : exit_post pv bound c0 sc e c0 c0 E1 sL1 [SIf (aexpand l1 vc) [] [SBreak]] (SyltSem.RAbrupt SyltSem.CBreak : SyltSem.res senv) s1).
+        { exists (ROk (E1, SigBreak) stc). split.
+          - apply XS_stop; [|intros []]. eapply Exec_if; [exact Hevc|]. cbn [truthy].
+            apply ExecBlock_of_ExecS_nil; [apply XS_stop; [apply Exec_break | intros []] | repeat constructor].
+          - cbn [exit_ok]. exists E1, stc. split; [reflexivity | split; [exact Hrelc|]].
+            eapply xkeep_cells_ext; [exact Hwf1 | exact Hxc |]. split; [apply Pos.le_refl | intros; reflexivity]. }
+        assert (Hxp : exit_post pv bound c0 sc e c c' E sL0 BB (SyltSem.RAbrupt SyltSem.CBreak : SyltSem.res senv) s1).
+        { rewrite <- HeqBB. eapply exit_app; [|apply N.le_refl].
+          eapply (exit_pre_gen pv bound c0 sc sc e e s0 s1 F F1 c c0 c0 c0 c c' E sL0 bc E1 sL1);
+            [exact Hok1 | exact Hrel0 | apply sext_refl | apply incl_refl | exact Hxif | lia | lia | lia | lia]. }
+        exact (Hterm _ _ Hxp). }
+    pose proof (Hiter n st stL r st' Hev Hint Hrel) as Hres. clear Hiter.
+    destruct r as [e'|o|a]; [| |destruct Hres].
+    + destruct Hres as (-> & sL' & HL & Hr' & Hk').
+      cbn [stmt_post]. exists E, sL', F. split; [|split; [apply sext_refl | apply incl_refl]].
+      split.
+      { apply ExecS_one. apply (Exec_while_ok E (fmt_label c0) BB E stL SigNormal sL' eq_refl).
+        apply (LoopR_sound E (fmt_label c0) BB HnlBB). exact HL. }
+      split; [apply wframe_of_xkeep; exact Hk'|]. split; [exact Hr' | split; [apply F_new_refl | apply keep_refl]].
+    + destruct Hres as (ev & sL' & HL & Htr). cbn [stmt_post]. exists (RErr ev sL'). split.
+      * apply XS_stop; [|intros []]. apply (Exec_while_err E (fmt_label c0) BB).
+        apply (LoopR_sound E (fmt_label c0) BB HnlBB). exact HL.
+      * cbn [exit_ok]. exists ev, sL'. split; [reflexivity | exact Htr].
+  - (* SBreak *)
+    inversion Hfrag; subst sc'. cbn in Hlow. inversion Hlow; subst code c'. cbn in Hev. inversion Hev; subst r st'.
+    eexists _, _. split; [apply (cshape_plain u l IBreak c c); [lia | reflexivity | reflexivity | reflexivity]|].
+    cbn [stmt_post agen_one fst]. exists (ROk (E, SigBreak) stL). split; [apply XS_stop; [apply Exec_break | intros []]|].
+    cbn [exit_ok]. exists E, stL. split; [reflexivity | split; [exact Hrel | split; [lia | auto]]].
+  - (* SContinue *)
+    inversion Hfrag; subst sc'. cbn in Hlow. inversion Hlow; subst code c'. cbn in Hev. inversion Hev; subst r st'.
+    eexists _, _. split; [apply (cshape_plain u l (IGoto ctx) c c); [lia | reflexivity | reflexivity | reflexivity]|].
+    cbn [stmt_post agen_one fst]. exists (ROk (E, SigGoto (fmt_label ctx)) stL). split; [apply XS_stop; [apply Exec_goto | intros []]|].
+    cbn [exit_ok]. exists E, stL. split; [reflexivity | split; [exact Hrel | split; [lia | auto]]].
   - (* SBlock *)
     rewrite frag_stmt_block in Hfrag. cbn [statement] in Hlow. apply lower_list_ok in Hlow as (cs & Hm & ->).
     destruct (frag_stmts pv sv bound k sc statements) as [sc1|] eqn:Hs; [|discriminate Hfrag]. inversion Hfrag; subst sc'.
@@ -450,29 +763,135 @@ Proof.
     split; [exact Hx1|]. split; [exact Hf1|]. split; [eapply rel_shrink; eassumption|]. split; assumption.
   - (* SStatementExpression *)
     rewrite frag_stmt_sexpr in Hfrag. cbn [statement] in Hlow. mon Hlow.
-    destruct (frag_expr pv k sc value) eqn:Hfe; [|discriminate Hfrag]. inversion Hfrag; subst sc'.
+    destruct (frag_expr pv sv bound k sc value) eqn:Hfe; [|discriminate Hfrag]. inversion Hfrag; subst sc'.
     destruct a as [code_v rv]. cbn [fst] in *.
     cbn [SyltSem.exec] in Hev. unfold SyltSem.bind at 1 in Hev.
     destruct (SyltSem.eval n e value st) as [[v_|o|cc] st1] eqn:He1.
     2: { inversion Hev; subst.
-         destruct (P_eval_all pv bound u n g k value ctx c code_v rv c' e _ _ st' sc l E stL F He1 Hm Hfe Hu Hctx Hrel Hint)
+         destruct (IHe g k value ctx c code_v rv c' e _ _ st' sc l E stL F He1 Hm Hfe Hu Hctx Hrel Hint)
            as (b1 & l1 & Hs1 & _ & _ & Hpost).
          eexists _, _. split; [exact Hs1 | exact Hpost]. }
     2: { inversion Hev; subst.
-         destruct (P_eval_all pv bound u n g k value ctx c code_v rv c' e _ _ st' sc l E stL F He1 Hm Hfe Hu Hctx Hrel Hint)
+         destruct (IHe g k value ctx c code_v rv c' e _ _ st' sc l E stL F He1 Hm Hfe Hu Hctx Hrel Hint)
            as (b1 & l1 & Hs1 & _ & _ & Hpost).
          eexists _, _. split; [exact Hs1 | exact Hpost]. }
     cbn in Hev. inversion Hev; subst r st'. clear Hev.
-    destruct (P_eval_all pv bound u n g k value ctx c code_v rv c' e _ _ st1 sc l E stL F He1 Hm Hfe Hu Hctx Hrel I)
+    destruct (IHe g k value ctx c code_v rv c' e _ _ st1 sc l E stL F He1 Hm Hfe Hu Hctx Hrel I)
       as (b1 & l1 & Hs1 & _ & _ & E2 & stL2 & F2 & Hok2 & _).
     eexists _, _. split; [exact Hs1|].
     cbn [stmt_post]. exists E2, stL2, F2. split; [exact Hok2 | split; [apply sext_refl | apply incl_refl]].
 Qed.
 
-Theorem P_stmt_all n : P_exec n /\ P_execs n.
+(* two parts one after the other, both inside [lo, hi) *)
+Lemma okstepS_trans_gen sc sc1 sc2 e1 st1 e2 st2 F F1 F2 a b a2 b2 lo hi E stL b1 E1 stL1 bl2 E2 stL2 :
+  okstepS sc sc1 e1 st1 F a b E stL b1 E1 stL1 F1 -> okstepS sc1 sc2 e2 st2 F1 a2 b2 E1 stL1 bl2 E2 stL2 F2 ->
+  incl sc sc1 -> lo <= a -> b <= hi -> lo <= a2 -> b2 <= hi ->
+  okstepS sc sc2 e2 st2 F lo hi E stL (b1 ++ bl2) E2 stL2 F2.
 Proof.
-  induction n as [|n [IH1 IH2]]; [apply P_stmt_zero|].
-  split; [apply P_exec_succ; exact IH2 | apply P_execs_succ; assumption].
+  intros (Hx1 & Hf1 & Hr1 & (Hi1 & Hn1) & Hk1) (Hx2 & Hf2 & Hr2 & (Hi2 & Hn2) & Hk2) Hi Ha Hb Ha2 Hb2.
+  split; [eapply ExecS_app; eassumption|]. split.
+  - eapply wframe_trans; [eapply wframe_widen; [exact Hf1 | lia | lia] | eapply wframe_widen; [exact Hf2 | lia | lia]].
+  - split; [exact Hr2|]. split.
+    + split; [eapply incl_tran; eassumption|]. intros t Ht. destruct (Hn2 t Ht) as [H|H]; [|right; lia].
+      destruct (Hn1 t H) as [H'|H']; [left; exact H' | right; lia].
+    + intros v Hv. rewrite (Hk2 v (Hi v Hv)). apply Hk1. exact Hv.
 Qed.
+
+Lemma P_bv_succ n : P_eval n -> P_execs n -> P_bv (S n).
+Proof.
+  intros IHe IHss g k body ctx c code c' e st r st' sc sc' l E stL F out p lo hi
+         Hev Hlow Hfrag Hu Hctx Hrel Hblo Hlc Hch Hout Hoc Hp Hcell Hlout Hcout Hint.
+  cbn [SyltSem.block_value] in Hev. unfold lower_eblock in Hlow.
+  assert (Hbout : bound <= out) by lia.
+  (* all statements, the value is nil *)
+  assert (Hwhole : SyltSem.bind (SyltSem.exec_block n e body) (fun _ : senv => SyltSem.ret (SV Values.VLuaNil)) st = (r, st') ->
+                   lower_list (statement g) body ctx c = Ok (code, c') ->
+                   exists b l', cshape u l code b l' c c' /\ bv_post ctx sc e lo hi E stL b p r st').
+  { intros Hev' Hlow'. apply lower_list_ok in Hlow' as (cs & Hm & ->).
+    unfold SyltSem.bind at 1 in Hev'.
+    destruct (SyltSem.exec_block n e body st) as [[e1|o|cc] st1] eqn:He1.
+    2,3: (inversion Hev'; subst;
+          destruct (IHss g k body ctx c cs c' e st _ st' sc sc' l E stL F He1 Hm Hfrag Hu Hctx Hrel Hint) as (b1 & l1 & Hs1 & Hpost);
+          eexists _, _; (split; [exact Hs1|]); cbn [stmt_post bv_post] in *; eapply (xpost_widen pv bound ctx sc e c c' lo hi); [exact Hpost | lia | lia]).
+    cbn in Hev'. inversion Hev'; subst r st'. clear Hev'.
+    destruct (IHss g k body ctx c cs c' e st _ st1 sc sc' l E stL F He1 Hm Hfrag Hu Hctx Hrel I)
+      as (b1 & l1 & Hs1 & E1 & stL1 & F1 & Hok1 & Hse1 & Hinc1).
+    eexists _, _. split; [exact Hs1|]. cbn [bv_post]. exists E1, stL1.
+    pose proof Hok1 as (Hx1 & Hf1 & _).
+    split; [exact Hx1|]. split; [eapply rel_back; eassumption|].
+    split; [eapply xkeep_widen; [eapply xkeep_of_wframe; exact Hf1 | lia | lia]|].
+    rewrite (wr_cells _ _ _ _ _ _ _ Hf1 out p Hbout Hoc Hp), Hcell. constructor. }
+  destruct (rev body) as [|last init_rev] eqn:Hrev; [apply Hwhole; assumption|].
+  destruct last; try (apply Hwhole; assumption).
+  clear Hwhole.
+  assert (Hbody : body = rev init_rev ++ [SStatementExpression value sp]) by (rewrite <- (rev_involutive body), Hrev; reflexivity).
+  rewrite Hbody in Hfrag. clear Hbody Hrev.
+  mon Hlow. apply lower_list_ok in Hm as (cs & Hmi & ->).
+  destruct (frag_stmts_app pv sv bound _ _ _ _ _ Hfrag) as (sc1 & k' & Hfi & Hfl).
+  destruct k' as [|k']; [discriminate|]. rewrite frag_stmts_cons in Hfl.
+  destruct k' as [|k'']; [discriminate|]. rewrite frag_stmt_sexpr in Hfl.
+  destruct (frag_expr pv sv bound k'' sc1 value) eqn:Hfe; [|discriminate Hfl].
+  destruct a0 as [cv rv]. cbn [fst snd] in *.
+  apply ucovers_app in Hu as [Hui Hu]. apply ucovers_app in Hu as [Huv Hur].
+  assert (Hcrv : 1 <= count_of u rv) by (eapply Hur; [left; reflexivity | right; left; reflexivity]).
+  destruct (L_stmts_all pv sv bound u g k (rev init_rev) ctx c cs c0 sc sc1 l Hmi Hfi) as (_ & _ & (_ & Hcc0 & _)).
+  assert (HLv : forall l0, exists b2 l2, cshape u l0 cv b2 l2 c0 c')
+    by (intros l0; destruct (L_expr_all pv sv bound u g k'' value ctx c0 cv rv c' sc1 l0 Hm0 Hfe) as (b2 & l2 & Hs2 & _); eauto).
+  destruct (HLv l) as (_ & _ & (_ & Hc0c' & _)).
+  assert (Hasg : forall l0, cshape u l0 [IAssign out rv] (fst (agen_one u l0 (IAssign out rv))) l0 c' c')
+    by (intros l0; apply cshape_plain; [lia | reflexivity | reflexivity | apply used_plain]).
+  assert (Hctxi : ctx_ok l F E c c0) by (eapply ctx_sub; [exact Hctx | lia | lia]).
+  unfold SyltSem.bind at 1 in Hev.
+  destruct (SyltSem.exec_block n e (rev init_rev) st) as [[e1|o|cc] st1] eqn:He1.
+  2,3: (inversion Hev; subst;
+        destruct (IHss g k (rev init_rev) ctx c cs c0 e st _ st' sc sc1 l E stL F He1 Hmi Hfi Hui Hctxi Hrel Hint) as (b1 & l1 & Hs1 & Hpost);
+        destruct (HLv l1) as (b2 & l2 & Hs2);
+        eexists _, _; (split; [eapply cshape_app; [exact Hs1|]; eapply cshape_app; [exact Hs2 | apply Hasg]|]);
+        cbn [stmt_post bv_post] in *; eapply exit_app; [eapply (xpost_widen pv bound ctx sc e c c0 lo hi); [exact Hpost | lia | lia] | apply N.le_refl]).
+  destruct (IHss g k (rev init_rev) ctx c cs c0 e st _ st1 sc sc1 l E stL F He1 Hmi Hfi Hui Hctxi Hrel I)
+    as (b1 & l1 & Hs1 & E1 & stL1 & F1 & Hok1 & Hse1 & Hinc1).
+  pose proof Hok1 as (Hx1 & Hf1 & Hrel1 & _).
+  assert (Hctx1 : ctx_ok l1 F1 E1 c0 c') by (eapply ctx_afterS; eassumption).
+  destruct (SyltSem.eval n e1 value st1) as [[v_|o|cc] st2] eqn:He2.
+  2,3: (inversion Hev; subst;
+        destruct (IHe g k'' value ctx c0 cv rv c' e1 st1 _ st' sc1 l1 E1 stL1 F1 He2 Hm0 Hfe Huv Hctx1 Hrel1 Hint) as (b2 & l2 & Hs2 & _ & _ & Hp2);
+        eexists _, _; (split; [eapply cshape_app; [exact Hs1|]; eapply cshape_app; [exact Hs2 | apply Hasg]|]);
+        cbn [eval_post bv_post] in *;
+        eapply (exit_pre_gen pv bound ctx sc sc1 e e1 st st1 F F1 c c0 c0 c' lo hi);
+          [exact Hok1 | exact Hrel | exact Hse1 | exact Hinc1 | eapply exit_app; [exact Hp2 | apply N.le_refl] | lia | lia | lia | lia]).
+  inversion Hev; subst r st'. clear Hev.
+  destruct (IHe g k'' value ctx c0 cv rv c' e1 st1 _ st2 sc1 l1 E1 stL1 F1 He2 Hm0 Hfe Huv Hctx1 Hrel1 I)
+    as (b2 & l2 & Hs2 & _ & _ & E2 & stL2 & F2 & Hok2 & Hd2). specialize (Hd2 Hcrv).
+  pose proof Hok2 as (Hx2 & Hf2 & Hrel2 & _).
+  assert (Hp2 : sget (fmt_var out) E2 = Some p).
+  { apply (wr_incl _ _ _ _ _ _ _ Hf2); [exact Hbout|]. apply (wr_incl _ _ _ _ _ _ _ Hf1); assumption. }
+  assert (Hl2out : alut_get l2 out = None).
+  { destruct Hs1 as (_ & _ & Hfr1 & _). destruct Hs2 as (_ & _ & Hfr2 & _). rewrite Hfr2 by lia. rewrite Hfr1 by lia. exact Hlout. }
+  destruct (step_assign_temp pv bound u sc1 e1 st2 F2 lo hi E2 stL2 l2 out rv p v_ Hrel2 Hblo Hout Hcout Hp2 Hl2out Hd2)
+    as (stL3 & lv & Hok3 & Hlv & Hvr).
+  assert (Hall : okstepS sc sc1 e1 st2 F lo hi E stL (b1 ++ b2 ++ fst (agen_one u l2 (IAssign out rv))) E2 stL3 F2).
+  { eapply (okstepS_trans_gen sc sc1 sc1 e1 st1 e1 st2 F F1 F2 c c0 lo hi lo hi); [exact Hok1 | | exact Hinc1 | lia | lia | lia | lia].
+    eapply (okstepS_trans_gen sc1 sc1 sc1 e1 st2 e1 st2 F1 F2 F2 c0 c' lo hi lo hi); [exact Hok2 | exact Hok3 | apply incl_refl | lia | lia | lia | lia]. }
+  eexists _, _. split; [eapply cshape_app; [exact Hs1|]; eapply cshape_app; [exact Hs2 | apply Hasg]|].
+  cbn [bv_post]. exists E2, stL3. split; [apply Hall|]. split; [eapply rel_back; eassumption|].
+  split; [eapply xkeep_of_wframe; apply Hall | rewrite Hlv; exact Hvr].
+Qed.
+
+Lemma P_bv_zero : P_bv O.
+Proof.
+  intros g k body ctx c code c' e st r st' sc sc' l E stL F out p lo hi Hev.
+  cbn in Hev. inversion Hev; subst. intros. contradiction.
+Qed.
+
+(* the four simulations together, by induction on the fuel of the reference interpreter *)
+Theorem P_all n : P_eval n /\ P_exec n /\ P_execs n /\ P_bv n.
+Proof.
+  induction n as [|n (IHe & IHs & IHss & IHb)].
+  - split; [apply P_eval_zero|]. split; [apply P_stmt_zero|]. split; [apply P_stmt_zero | apply P_bv_zero].
+  - split; [apply P_eval_succ; assumption|]. split; [apply P_exec_succ; assumption|].
+    split; [apply P_execs_succ; assumption | apply P_bv_succ; assumption].
+Qed.
+
+
 
 End Sim.
